@@ -202,6 +202,9 @@ func NewProofCommit(key *gabikeys.PublicKey, witn *Witness, randomizer *big.Int)
 // SetExpected sets certain values of the proof to expected values, inferred from the containing proofs,
 // before verification.
 func (p *Proof) SetExpected(pk *gabikeys.PublicKey, challenge, response *big.Int) error {
+	if p.SignedAccumulator == nil || p.Responses == nil || !pk.RevocationSupported() {
+		return errors.New("incomplete nonrevocation proof")
+	}
 	acc, err := p.SignedAccumulator.UnmarshalVerify(pk)
 	if err != nil {
 		return err
@@ -209,6 +212,9 @@ func (p *Proof) SetExpected(pk *gabikeys.PublicKey, challenge, response *big.Int
 	p.Nu = acc.Nu
 	p.Challenge = challenge
 	p.Responses["alpha"] = response
+	if !proofstructure.verifyProofStructure((*proof)(p)) {
+		return errors.New("incomplete nonrevocation proof")
+	}
 	return nil
 }
 
@@ -218,7 +224,7 @@ func (p *Proof) ChallengeContributions(key *gabikeys.PublicKey) []*big.Int {
 }
 
 func (p *Proof) VerifyWithChallenge(pk *gabikeys.PublicKey, reconstructedChallenge *big.Int) bool {
-	if !proofstructure.verifyProofStructure((*proof)(p)) {
+	if p.SignedAccumulator == nil || !proofstructure.verifyProofStructure((*proof)(p)) {
 		return false
 	}
 	if (*proof)(p).ProofResult("alpha").Cmp(Parameters.bTwoZk) > 0 {
